@@ -17,6 +17,7 @@ import (
 	"net/http/httptest"
 	"os"
 	"path/filepath"
+	"strings"
 	"sync"
 
 	"github.com/go-chi/chi/v5"
@@ -50,6 +51,9 @@ type provSpec struct {
 	Name   string
 	Secret string
 	Hooks  []hookSpec
+	// PreInits: how often the harness calls Init on the provisioner object before handing it to
+	// authority.New (which initialises it once more), as test/integration/scep does.
+	PreInits int
 }
 
 // the configurations the quick tier enumerates (method none / static / webhook allow, deny,
@@ -69,7 +73,18 @@ var provSpecs = []provSpec{
 	{Name: "hssh", Hooks: []hookSpec{{"scep", "ssh", "deny"}}},
 	{Name: "hsshst", Secret: staticSecret, Hooks: []hookSpec{{"scep", "ssh", "allow"}}},
 	{Name: "hnotify", Secret: staticSecret, Hooks: []hookSpec{{"notify", "x509", "allow"}}},
+	// challenge and notification webhooks side by side, in both orders, initialised once or twice
+	{Name: "hdn", Hooks: []hookSpec{{"scep", "x509", "deny"}, {"notify", "x509", "allow"}}},
+	{Name: "hnd", Hooks: []hookSpec{{"notify", "x509", "allow"}, {"scep", "x509", "deny"}}},
+	{Name: "hmn", Hooks: []hookSpec{{"scep", "x509", "match"}, {"notify", "all", "allow"}}},
+	{Name: "hmnd", Hooks: []hookSpec{{"scep", "x509", "match"}, {"notify", "x509", "allow"}, {"scep", "none", "deny"}, {"notify", "x509", "e400"}, {"notify", "x509", "allow"}}},
+	{Name: "hdn2", Hooks: []hookSpec{{"scep", "x509", "deny"}, {"notify", "x509", "allow"}}, PreInits: 1},
+	{Name: "hmn3", Hooks: []hookSpec{{"scep", "x509", "match"}, {"notify", "x509", "allow"}}, PreInits: 2},
+	{Name: "hstn2", Secret: staticSecret, Hooks: []hookSpec{{"notify", "x509", "allow"}, {"scep", "ssh", "allow"}}, PreInits: 1},
 }
+
+// csrOnlyProvs: configurations enumerated only with the message types that yield a CSR.
+var fullMatrixProvs = map[string]bool{"none": true, "static": true, "hallow": true}
 
 func specByName(n string) *provSpec {
 	for i := range provSpecs {
@@ -100,26 +115,36 @@ func (d *countingDB) count() int {
 	return d.stored
 }
 
-// hookServer answers the challenge webhooks and counts the calls that reach a
-// challenge-validation hook (webhook ids starting with "c").
+// hookServer answers the webhooks. A call is classified by its *body* (challenge validation
+// sends provisionerName + scepChallenge, notifications do not) and checked against the kind of
+// the webhook it arrived at (ids "c…" = configured as usable challenge webhook, "n…" = anything else).
 type hookServer struct {
-	srv   *httptest.Server
-	mu    sync.Mutex
-	calls int
-	last  string
-	seen  bool
+	srv      *httptest.Server
+	mu       sync.Mutex
+	calls    int // challenge-validation requests received
+	notif    int // notification requests received
+	misroute bool
+	last     string
+	seen     bool
 }
 
 func (h *hookServer) reset() {
 	h.mu.Lock()
-	h.calls, h.last, h.seen = 0, "", false
+	h.calls, h.notif, h.misroute, h.last, h.seen = 0, 0, false, "", false
 	h.mu.Unlock()
 }
 
-func (h *hookServer) snapshot() (int, string, bool) {
+type hookSnap struct {
+	calls, notif int
+	misroute     bool
+	last         string
+	seen         bool
+}
+
+func (h *hookServer) snapshot() hookSnap {
 	h.mu.Lock()
 	defer h.mu.Unlock()
-	return h.calls, h.last, h.seen
+	return hookSnap{h.calls, h.notif, h.misroute, h.last, h.seen}
 }
 
 // hookDecision is the decision of the "match" endpoint; the harness sends the same decision
@@ -129,16 +154,23 @@ func hookDecision(challenge string) bool { return challenge == hookSecret }
 func (h *hookServer) handle(w http.ResponseWriter, r *http.Request) {
 	body, _ := io.ReadAll(r.Body)
 	var req struct {
-		SCEPChallenge string `json:"scepChallenge"`
+		SCEPChallenge   string `json:"scepChallenge"`
+		ProvisionerName string `json:"provisionerName"`
 	}
 	_ = json.Unmarshal(body, &req)
 	id := r.Header.Get("X-Smallstep-Webhook-ID")
-	if len(id) > 0 && id[0] == 'c' {
-		h.mu.Lock()
+	isChallengeCall := req.ProvisionerName != ""
+	h.mu.Lock()
+	if isChallengeCall {
 		h.calls++
 		h.last, h.seen = req.SCEPChallenge, true
-		h.mu.Unlock()
+	} else {
+		h.notif++
 	}
+	if len(id) == 0 || (id[0] == 'c') != isChallengeCall {
+		h.misroute = true
+	}
+	h.mu.Unlock()
 	switch r.URL.Path {
 	case "/allow":
 		fmt.Fprint(w, `{"allow":true}`)
@@ -168,6 +200,7 @@ type testCA struct {
 	root    *x509.Certificate
 	store   *countingDB
 	hooks   *hookServer
+	provs   map[string]*provisioner.SCEP // the provisioner objects, to read Options.Webhooks after Init
 }
 
 func (t *testCA) close() {
@@ -234,6 +267,7 @@ func newTestCA() (*testCA, error) {
 	t.hooks.srv = httptest.NewServer(http.HandlerFunc(t.hooks.handle))
 
 	var provs provisioner.List
+	t.provs = map[string]*provisioner.SCEP{}
 	for _, ps := range provSpecs {
 		p := &provisioner.SCEP{
 			ID:                            "scep-" + ps.Name,
@@ -249,7 +283,7 @@ func newTestCA() (*testCA, error) {
 			for i, h := range ps.Hooks {
 				id := fmt.Sprintf("c%d", i)
 				if h.Kind != "scep" || h.CT == "ssh" {
-					id = fmt.Sprintf("n%d", i) // never a challenge-validation hook
+					id = fmt.Sprintf("n%d", i) // not a (usable) challenge-validation hook
 				}
 				p.Options.Webhooks = append(p.Options.Webhooks, &provisioner.Webhook{
 					ID:       id,
@@ -261,6 +295,12 @@ func newTestCA() (*testCA, error) {
 				})
 			}
 		}
+		for i := 0; i < ps.PreInits; i++ {
+			if err := p.Init(provisioner.Config{}); err != nil {
+				return nil, fmt.Errorf("pre-init %s: %w", ps.Name, err)
+			}
+		}
+		t.provs[ps.Name] = p
 		provs = append(provs, p)
 	}
 
@@ -299,4 +339,34 @@ func newTestCA() (*testCA, error) {
 		mux.ServeHTTP(w, r.WithContext(base))
 	})
 	return t, nil
+}
+
+// webhooksAfterInit renders Options.Webhooks of the live provisioner object (kind:certType per
+// webhook, in order): Init must leave the configured list as it was.
+func (t *testCA) webhooksAfterInit(name string) string {
+	p := t.provs[name]
+	if p == nil || p.Options == nil || len(p.Options.Webhooks) == 0 {
+		return "-"
+	}
+	var out []string
+	for _, wh := range p.Options.Webhooks {
+		k := "other"
+		switch wh.Kind {
+		case "SCEPCHALLENGE":
+			k = "scep"
+		case "NOTIFYING":
+			k = "notify"
+		}
+		ct := "none"
+		switch wh.CertType {
+		case "X509":
+			ct = "x509"
+		case "SSH":
+			ct = "ssh"
+		case "ALL":
+			ct = "all"
+		}
+		out = append(out, k+":"+ct)
+	}
+	return strings.Join(out, ",")
 }
